@@ -121,9 +121,198 @@ def c19_invalid(which: int, kind: int, iv: int) -> bool:
     return run(_invalid_body, which, kind, iv)
 
 
+
+
+# ---- pool level ---------------------------------------------------------------------------------------------
+
+from kit import net as N
+from kit import env as E
+from urllib3.connectionpool import HTTPConnectionPool
+from urllib3.exceptions import ReadTimeoutError, HTTPError
+
+
+class OkPeer(N.BaseHandler):
+    def __init__(self):
+        self.reads = 0
+        self.answered = {}
+
+    def on_read(self, sock):
+        self.reads += 1
+        reqs, _ = N.parse_requests(sock.tx)
+        a = self.answered.get(sock.id, 0)
+        if a >= len(reqs):
+            return b""
+        self.answered[sock.id] = a + 1
+        return b"HTTP/1.1 200 OK\r\nContent-Length: 2\r\n\r\nok"
+
+
+def _fail(msg):
+    from kit import h
+    h.INFO["why"] = msg
+    return False
+
+
+def _expected(tk, tv, ck, cv, rk, rv, dt):
+    """(connect timeout, read timeout) from the documentation: min(connect,total); min(read, total - elapsed)."""
+    if tk == 2 and ck == 2:
+        ec = cv if cv < tv else tv
+    elif tk == 2:
+        ec = tv
+    else:
+        ec = None if ck != 2 else cv           # unset -> socket default (None), None -> None
+    if tk == 2:
+        rem = tv - dt
+        if rk == 2 and rv < rem:
+            rem = rv
+        er = rem if rem > 0 else 0
+    else:
+        er = rv if rk == 2 else None
+    return ec, er
+
+
+def _pool_body(tk, tv, ck, cv, rk, rv, t0, dt, req_level, ptk, ptv, legacy, second):
+    peer = OkPeer()
+    netw = N.install(peer)
+    clock = E.install_clock(E.FakeTime([t0, t0 + dt, t0 + dt, t0 + dt]))
+    try:
+        total, connect, read = _val(tk, tv), _val(ck, cv), _val(rk, rv)
+        if legacy:
+            # legacy number instead of a Timeout object: same value for connect and read, no total
+            to = cv
+            tk, ck, rk, rv = 1, 2, 2, cv
+        else:
+            to = Timeout(total=total, connect=connect, read=read)
+        if req_level:
+            pool_to = Timeout(total=_val(ptk, ptv), connect=1, read=1)     # must be fully overridden
+            pool = HTTPConnectionPool("h", 80, timeout=pool_to)
+            kw = {"timeout": to}
+        else:
+            pool = HTTPConnectionPool("h", 80, timeout=to)
+            kw = {}
+        ec, er = _expected(tk, tv, ck, cv, rk, rv, dt)
+        exc = None
+        try:
+            r = pool.urlopen("GET", "/", retries=False, **kw)
+        except Exception as e:
+            exc = e
+        dial = netw.dials[0]
+        if not (dial[1] is ec or dial[1] == ec):
+            return _fail("connect phase timeout %r, expected %r" % (dial[1], ec))
+        sock = netw.socks[0]
+        if er is not None and er == 0:
+            mark("zero read budget")
+            if not isinstance(exc, ReadTimeoutError):
+                return _fail("remaining read budget 0 but got %r" % (exc,))
+            if peer.reads:
+                return _fail("waited for the response although the read budget was 0")
+            return True
+        if exc is not None:
+            return _fail("unexpected %r" % (exc,))
+        # the timeout in force when the response wait started
+        last = None
+        for ev in sock.events:
+            if ev[0] == "settimeout":
+                last = ev[1]
+        if not (last is er or last == er):
+            return _fail("response wait timeout %r, expected %r" % (last, er))
+        if er is not None:
+            if er < 0:
+                return _fail("negative timeout")
+            if rk == 2 and er > rv:
+                return _fail("looser than read")
+            if tk == 2 and er > tv:
+                return _fail("looser than total")
+            mark("read timeout applied")
+        # one request's clock never influences another's: the pool's own object is never started
+        if pool.timeout._start_connect is not None:
+            return _fail("pool-level Timeout object was started")
+        if (not legacy) and to._start_connect is not None:
+            return _fail("caller's Timeout object was started")
+        if second:
+            clock.samples = [t0 + 1000, t0 + 1000 + dt]
+            clock.i = 0
+            n_before = len(sock.events)
+            try:
+                pool.urlopen("GET", "/", retries=False, **kw)
+            except Exception as e:
+                return _fail("second request: %r" % (e,))
+            last2 = None
+            for ev in sock.events[n_before:]:
+                if ev[0] == "settimeout":
+                    last2 = ev[1]
+            if len(netw.socks) != 1:
+                return _fail("second request did not reuse the connection")
+            if not (last2 is er or last2 == er):
+                return _fail("second request's response wait timeout %r, expected %r (clock leaked?)" % (last2, er))
+            mark("second request")
+        return True
+    finally:
+        N.uninstall()
+        E.uninstall_clock()
+
+
+def c19_pool(tk: int, tv: int, ck: int, cv: int, rk: int, rv: int, t0: int, dt: int, req_level: bool, ptk: int,
+             ptv: int, legacy: bool, second: bool) -> bool:
+    """
+    pre: 1 <= tk <= 2 and 0 <= ck <= 2 and 0 <= rk <= 2
+    pre: tv > 0 and cv > 0 and rv > 0 and ptv > 0 and 1 <= ptk <= 2
+    pre: dt >= 0
+    pre: legacy == P.legacy and req_level == P.req_level
+    post: _
+    """
+    return run(_pool_body, tk, tv, ck, cv, rk, rv, t0, dt, req_level, ptk, ptv, legacy, second)
+
+
+def _unit_float_body(tv, rv, dt):
+    """Same arithmetic with finite floats; the oracle uses the same float expression order."""
+    clock = Clock([0.0, dt])
+    saved = T.time
+    T.time = _TimeStub(clock)
+    try:
+        to = Timeout(total=tv, read=rv)
+        to.start_connect()
+        rt = to.read_timeout
+        rem = tv - (dt - 0.0)
+        e = rem if rem < rv else rv
+        exp = e if e > 0 else 0
+        return rt == exp and rt >= 0 and rt <= rv and rt <= tv
+    finally:
+        T.time = saved
+
+
+def c19_unit_float(tv: float, rv: float, dt: float) -> bool:
+    """
+    pre: math.isfinite(tv) and math.isfinite(rv) and math.isfinite(dt)
+    pre: tv > 0 and rv > 0 and dt >= 0
+    post: _
+    """
+    return run(_unit_float_body, tv, rv, dt)
+
+
+import math
+
+
 def JOBS(tier):
-    t = 60 if tier == "quick" else 300
-    return [
+    t = 120 if tier == "quick" else 600
+    jobs = [
         {"func": "c19_unit_int", "part": {}, "timeout": t},
+        {"func": "c19_unit_float", "part": {}, "timeout": t},
         {"func": "c19_invalid", "part": {}, "timeout": t},
     ]
+    for legacy in (False, True):
+        for req_level in (False, True):
+            jobs.append({"func": "c19_pool", "part": {"legacy": legacy, "req_level": req_level}, "timeout": t,
+                         "path_timeout": 60})
+    return jobs
+
+
+EVIDENCE = {
+    "bounds": {"quick": "unit: total/connect/read each unset|None|any positive int (unbounded), clock samples any ints t0<=t1; floats: "
+                        "any finite positive total/read/elapsed; invalid values {int<=0 in -3..0, True, False, str, object}; pool "
+                        "level: same symbolic ints through HTTPConnectionPool.urlopen on the in-memory net, pool- vs request-level "
+                        "placement, legacy number, second request on the reused connection",
+               "thorough": "same, larger budget"},
+    "outside": ["NaN/inf timeouts", "non-monotone clocks", "Timeout(total=<sentinel>)"],
+    "stubs": ["time.monotonic inside util.timeout -> scripted symbolic samples", "in-memory net"],
+    "assumptions": ["the wait applied to a phase is the value passed to create_connection / the last settimeout before the read"],
+}
